@@ -136,6 +136,10 @@ def gen_cases(tier, rnd, prop, budget):
             # games of ANY class: the computers are defined on every table with minimal information
             return (G.arbitrary_game(n, rnd), "arb") if i % 8 == 3 else (G.undervalued_game(n, rnd), "undervalued")
         kind = ["int", "dyadic", "offset", "big", "int", "offset"][i % 6]
+        if prop in ("C07", "C08"):
+            # positions 2 and 5 are SAM games here; the offset kind (huge stand-alone values, small increments: intervals that
+            # are narrow relative to their magnitude, so a relative-tolerance "snap" of nearly closed intervals shows) comes first
+            kind = ["offset", "dyadic", "int", "big", "offset", "int"][i % 6]
         return G.sa_game(n, rnd, kind=kind, neg_singletons=(i % 3 == 1),
                          v0=Fraction(-(i % 2) * rnd.randint(0, 3))), f"sa-{kind}"
     # n = 3: all K
